@@ -16,7 +16,7 @@ pub fn def() -> PropDef {
         check,
         nontrivial,
         rule: "1-3 publisher clients and 1-4 subscriber actors over 1-2 topics; subscribe in started(), later from a handler, or from outside (Broker::subscribe), re-subscribe, unsubscribe, subscriber termination at arbitrary positions; publishing through Broker::publish, Addr<Broker>::publish, Broker::try_publish and Context::publish; in half of the runs a publish is followed by broker.ping() as a 'processed by now' barrier; x seeded schedules; oracle = must / may / must-not delivery windows from the stamps, at-most-once, one common order extending real-time order; non-trivial = two or more publications reached two or more subscribers with a subscribe, unsubscribe or termination in between; distinct = distinct order of client-op and callback events",
-        needed_probes: &["c09_must_checked", "c09_must_not_checked", "c09_order_checked", "c09_dead_subscriber_in_table", "c09_unsubscribed", "c09_resubscribed"],
+        needed_probes: &["c09_must_checked", "c09_must_not_checked", "c09_order_checked", "c09_dead_subscriber_in_table", "c09_unsubscribed", "c09_resubscribed", "c09_unheld_subscriber"],
         quick_runs: 100_000,
         thorough_runs: 2_000_000,
         block: 1,
@@ -93,6 +93,17 @@ pub fn generate(g: &mut G, _index: u64) -> Scenario {
             g.maybe_yield(&mut ops);
         }
         sc.clients.push(ClientSpec { ops });
+    }
+    // sometimes every holder of one subscriber lets go of it in mid-run (nobody stops it): the
+    // broker's table must not keep it alive, and the others keep receiving
+    if g.chance(1, 3) {
+        let s = g.below(nsubs as u64) as Slot;
+        for c in 0..npubs {
+            let ops = &mut sc.clients[c].ops;
+            let lo = nsubs; // after the Takes
+            let at = g.range(lo as u64, ops.len() as u64) as usize;
+            ops.insert(at, Op::Drop { h: s });
+        }
     }
     sc.sched = g.sched(false);
     sc.settle_ns = 50;
@@ -185,7 +196,18 @@ pub fn check(v: &View) -> Vec<Violation> {
             continue;
         }
         // termination trigger of the subscriber: first stop request, else the epilogue
-        let term = v.stop_requests(s).iter().map(|r| r.begin).min().unwrap_or(v.phase_seq(Phase::HandlesDropped));
+        let cen = crate::census::census(v, s);
+        let last_drop = cen.t0().unwrap_or(u64::MAX);
+        let term = v.stop_requests(s).iter().map(|r| r.begin).min().unwrap_or(v.phase_seq(Phase::HandlesDropped)).min(last_drop);
+        // the broker never keeps a subscriber alive: once nobody holds it any more (and nothing is
+        // in flight) it is gone by the time the system has settled, not only when the brokers die
+        if last_drop < v.phase_seq(Phase::ClientsDone) && v.stop_requests(s).is_empty() && !v.fault_injected(a) {
+            crate::log::probe("c09_unheld_subscriber");
+            let settled = v.phase_seq(Phase::Settled);
+            if a.dead.is_none_or(|d| d > settled) && !v.busy_at(a, settled) {
+                out.push(violation(P, "subscriber-kept-alive", "by-broker", format!("subscriber {s}: its last strong handle went away at seq {last_drop}, but it was still running when the system had settled (dead {:?}); only the broker's table still refers to it", a.dead)));
+            }
+        }
         let faulted = v.fault_injected(a);
         for t in [1u8, 2] {
             let sub = table.get(&(s, t)).cloned().unwrap_or_default();
@@ -208,9 +230,10 @@ pub fn check(v: &View) -> Vec<Violation> {
                 let got = seen.contains_key(&p.id);
                 // must: a subscription completed before the publish began, nothing that could end it
                 // began before the publication was surely processed, and the subscriber lived on
-                let subscribed_before = sub.subs.iter().any(|(_, r)| *r < p.inv);
-                let unsub_could_precede = sub.unsubs.iter().any(|(i, _)| *i < sp);
-                if subscribed_before && !unsub_could_precede && term > sp {
+                // ... i.e. there is a subscription S completed before the publish began such that every
+                // unsubscription either completed before S began or began after p was surely processed
+                let effective = sub.subs.iter().any(|(is, rs)| *rs < p.inv && sub.unsubs.iter().all(|(iu, ru)| *ru < *is || *iu > sp));
+                if effective && term > sp {
                     crate::log::probe("c09_must_checked");
                     if !got {
                         out.push(violation(P, "publication-not-delivered", "", format!("subscriber {s} had subscribed to topic {t} (completed before seq {}) and was alive, but publication {} (published {}..{}) was never delivered", p.inv, p.id, p.inv, p.ret)));
